@@ -180,8 +180,10 @@ def check_solve_1d(iname, sysi, idx, res=None):
     def run(ix):
         f = space.field_from_letters(model, mesh, al, ix)
         with np.errstate(all="ignore"), core.time_limit(5.0):
-            dt0 = float(np.min(disc.calc_timestep(f, 0.6)))
-            return cls(mesh, disc).solve(f, 0.6, [0.4 * dt0], stop={"maxit": 2, "tottime": 1e30})
+            dt0 = float(np.min(disc.calc_timestep(f, 0.3)))
+            o = cls(mesh, disc).solve(f, 0.3, [0.4 * dt0], stop={"maxit": 2, "tottime": 1e30})
+            o.extend(cls(mesh, disc).solve(f, 0.3, stop={"maxit": 2}))      # the snapshot run returns only the snapshot
+            return o
     base = run(idx)
     site = "C14/solve1d/%s/%s" % (iname, mname)
     for k in range(1, n):
@@ -191,7 +193,11 @@ def check_solve_1d(iname, sysi, idx, res=None):
             res.transitions += 1
             res.evals += 1
         for ga, gb in zip(base.solutions, o.solutions):
-            if ga.time != gb.time:
+            if not (np.isfinite(ga.time) and np.isfinite(gb.time) and all(np.all(np.isfinite(d)) for d in ga.data) and all(np.all(np.isfinite(d)) for d in gb.data)):
+                if res is not None:
+                    res.skipped += 1      # a run that left the admissible set is chaotic at round-off level: counted, not judged
+                break
+            if not abs(ga.time - gb.time) <= (2e-6 if impl else 64 * EPS) * abs(ga.time):
                 out.append((site + "/time", "times differ %r vs %r" % (ga.time, gb.time)))
                 return out
             for q in range(model.neq):
@@ -237,7 +243,9 @@ def check_solve_2d(iname, flux, rname, nx, ny, idx, res=None):
         f = field2d(model, msh, ix)
         with np.errstate(all="ignore"), core.time_limit(5.0):
             dt0 = float(np.min(disc.calc_timestep(f, 0.3)))
-            return cls(msh, disc).solve(f, 0.3, [0.4 * dt0], stop={"maxit": 2, "tottime": 1e30})
+            o = cls(msh, disc).solve(f, 0.3, [0.4 * dt0], stop={"maxit": 2, "tottime": 1e30})
+            o.extend(cls(msh, disc).solve(f, 0.3, stop={"maxit": 2}))
+            return o
     base = run(idx)
     ar = np.arange(nx * ny)
     for sx, sy in ((1, 0), (0, 1), (1, 1), (nx - 1, ny - 1)):
